@@ -121,3 +121,13 @@ pub fn style(width: u32, align: StrokeAlignment, fill: Option<Gray8>, stroke: Op
     b.build()
 }
 
+
+/// Bounding box reported by a draw_iter-only probe target: an ARBITRARY rectangle that contains the
+/// probe point `q` (up to 15 pixels to each side of it), so it may cut through the drawable anywhere.
+/// The trait defaults must not depend on it - a default `fill_contiguous`/`fill_solid` that consults the
+/// target's bounding box (e.g. to cut the colour stream short) shows up as a difference to the native
+/// path at a point inside the box. (Points outside a target's bounding box are not compared.)
+pub fn sym_bbox(q: Point) -> Rectangle {
+    let (l, t, r, b) = (small_u(4) as i32, small_u(4) as i32, small_u(4), small_u(4));
+    Rectangle::new(Point::new(q.x - l, q.y - t), Size::new(l as u32 + 1 + r, t as u32 + 1 + b))
+}
